@@ -88,7 +88,16 @@ func genConcPlan(r *Rng, g *EvGen) concPlan {
 			case 5, 6, 7:
 				calls = append(calls, concCall{K: "find", Fs: []*mocrelay.ReqFilter{{}}})
 			case 8:
-				calls = append(calls, concCall{K: "find", Fs: []*mocrelay.ReqFilter{g.aimedFilter(pool)}})
+				// a query is ONE atomic read however many filters it has: several filters about the same events
+				switch {
+				case len(pool) > 0 && r.P(40):
+					b := pick(r, pool)
+					calls = append(calls, concCall{K: "find", Fs: []*mocrelay.ReqFilter{{Authors: []string{b.Pubkey}}, {Kinds: []int64{b.Kind}}}})
+				case r.P(50):
+					calls = append(calls, concCall{K: "find", Fs: []*mocrelay.ReqFilter{g.aimedFilter(pool), {}}})
+				default:
+					calls = append(calls, concCall{K: "find", Fs: []*mocrelay.ReqFilter{g.aimedFilter(pool)}})
+				}
 			default:
 				if p.Via == "cache" {
 					calls = append(calls, concCall{K: "len"})
@@ -230,7 +239,12 @@ func runConcBig(r *Rng, g *EvGen) {
 			for i := t; i < len(evs); i += 8 {
 				c.Add(evs[i])
 				if i%3 == 0 {
-					l := c.Find([]*mocrelay.ReqFilter{{}})
+					// alternately one filter and three (the union of a multi-filter query is still ONE snapshot)
+					fs := []*mocrelay.ReqFilter{{}}
+					if i%2 == 0 {
+						fs = []*mocrelay.ReqFilter{{Kinds: []int64{0, 3, 10002, 30023, 30024, 5}}, {Authors: authors}, {}}
+					}
+					l := c.Find(fs)
 					mu.Lock()
 					if len(listings) < 200 {
 						listings = append(listings, l)
